@@ -195,6 +195,10 @@ func (s *Solver) flush() ([]string, error) {
 	if _, err := io.WriteString(s.in, cmds); err != nil {
 		return nil, err
 	}
+	// watchdog: some solver builds ignore their own time limit inside preprocessing
+	proc := s.cmd.Process
+	wd := time.AfterFunc(time.Duration(s.timeoutMs)*time.Millisecond*2+5*time.Second, func() { proc.Kill() })
+	defer wd.Stop()
 	var lines []string
 	for {
 		line, err := s.out.ReadString('\n')
